@@ -325,10 +325,10 @@ def shards(tier):
     if tier == "quick":
         return [{"kind": "program", "name": f"st{i}", "n": 110, "rotate": 11 + i * 31} for i in range(5)] + [
             {"kind": "program", "name": "foreign", "n": 40, "rotate": 5, "classes": ["existing-diff"]}] + [
-            {"kind": "rechunk", "name": f"rechunk{i}", "n": 150} for i in range(2)]
+            {"kind": "rechunk", "name": f"rechunk{i}", "n": 150, "max_side": 40 if i == 0 else 160, "max_elems": 3000 if i == 0 else 24000} for i in range(2)]
     return [{"kind": "program", "name": f"st{i}", "n": 1500, "rotate": 11 + i * 31} for i in range(15)] + [
         {"kind": "program", "name": "foreign", "n": 600, "rotate": 5, "classes": ["existing-diff"]}] + [
-        {"kind": "rechunk", "name": f"rechunk{i}", "n": 2500} for i in range(4)]
+        {"kind": "rechunk", "name": f"rechunk{i}", "n": 2500, "max_side": 40 if i < 2 else 160, "max_elems": 3000 if i < 2 else 24000} for i in range(4)]
 
 
 def run_shard(spec, seed, tier) -> Acc:
@@ -339,7 +339,7 @@ def run_shard(spec, seed, tier) -> Acc:
     if spec["kind"] == "rechunk":
         from vp import c14
 
-        core.hyp_run(c14.real_cases(), check_case, seed=seed, max_examples=spec["n"], acc=acc, budget_s=420 if tier == "quick" else 3000,
+        core.hyp_run(c14.real_cases(max_side=spec.get("max_side", 40), max_elems=spec.get("max_elems", 3000), boost="staircase" if spec.get("max_side", 40) > 40 else None), check_case, seed=seed, max_examples=spec["n"], acc=acc, budget_s=420 if tier == "quick" else 3000,
                      shrink=(tier == "thorough"), is_known=is_known)
         return acc
     kw = {"classes": tuple(spec["classes"])} if spec.get("classes") else {}
